@@ -24,7 +24,8 @@ Inductive ccase :=
 | CLoads (l : list loadobs)                                     (* consecutive Loads in one process *)
 | CRound (cfg : list N) (home : N) (obs : option (list N))      (* SaveAsYaml then Load *)
 | CGenSave (g : genesis) (obs : option genesis)                 (* Genesis.Save then LoadGenesis *)
-| CGenLoad (f : gfile) (obs : option genesis).                  (* LoadGenesis on a given file *)
+| CGenLoad (f : gfile) (obs : option genesis)                   (* LoadGenesis on a given file *)
+| CGenSeq (ws : list gfile) (obs : option genesis).             (* writes to ONE path in order (GJson g = Save g, GMalformed = foreign content), then LoadGenesis *)
 
 Fixpoint list_eqb {A} (e : A -> A -> bool) (a b : list A) : bool :=
   match a, b with
@@ -75,6 +76,7 @@ Definition check_case (fields : list tfield) (flags : list tflag) (c : ccase) : 
       if opt_eqb (list_eqb N.eqb) (Some (load fields flags (reread (fun x => x) true (save fields cfg)) [] home)) obs then [] else [2%N]
   | CGenSave g obs => if opt_eqb genesis_eqb (gload (gsave g)) obs then [] else [3%N]
   | CGenLoad f obs => if opt_eqb genesis_eqb (gload f) obs then [] else [3%N]
+  | CGenSeq ws obs => if opt_eqb genesis_eqb (gload (gputs GAbsent ws)) obs then [] else [3%N]
   end.
 
 Fixpoint mismatches_from (fields : list tfield) (flags : list tflag) (i : N) (cs : list ccase) : list (N * list N) :=
